@@ -30,6 +30,7 @@ REQUIRED = {
     "superset_checked": {"quick": 2000, "thorough": 24000},
     "rejections_checked": {"quick": 1500, "thorough": 15000},
     "refilled_buffers_checked": {"quick": 1000, "thorough": 12000},
+    "derived_screens_checked": {"quick": 600, "thorough": 8000},
 }
 N_CASES = {"quick": 8000, "thorough": 96000}
 
@@ -82,6 +83,10 @@ def run_shard(rec, tier, seed, shard, nshards):
         oracle(rec, s, kw)
         if ci < 2 and shard == 0:
             rec.sample({"kind": "fresh", "control": kw["control_treatment_name"], "names": kw["treatment_names"].tolist()[:6], "doses": kw["treatment_doses"].tolist()[:6], "ids": np.asarray(s.treatment_ids).tolist()[:6]})
+
+        if rng.random() < 0.12:
+            # ---- screens constructed BY the library from other screens: Screen.combine / Screen.concat
+            derived_screens(rec, rng, Screen, s, kw)
 
         if rng.random() < 0.25:
             # ---- the caller refills its buffers: same array OBJECTS, changed content, constructed again
@@ -216,6 +221,50 @@ def run_shard(rec, tier, seed, shard, nshards):
     piggyback(rec, tier, rng)
     if tier == "thorough" and shard == 0:
         run_repo_tests_under_invariant(rec)
+
+
+def derived_screens(rec, rng, Screen, s, kw):
+    """combine / concat build a new Screen from the parts' arrays: the result is judged like any other screen, against
+    the concatenated raw arrays and the (common) control name of its parts."""
+    parts_kw, parts = [kw], [s]
+    for j in range(int(rng.integers(1, 3))):
+        kw2 = gen.hostile_screen_kwargs(rng, n=int(rng.integers(1, 12)), arity=kw["treatment_names"].shape[1])
+        kw2["control_treatment_name"] = kw["control_treatment_name"]
+        if rng.random() < 0.5:
+            # share conditions / samples with the first part
+            k = min(len(kw2["sample_names"]), s.size)
+            take = rng.integers(0, s.size, size=k)
+            kw2["treatment_names"] = np.concatenate([kw["treatment_names"][take], kw2["treatment_names"][k:]])
+            kw2["treatment_doses"] = np.concatenate([kw["treatment_doses"][take], kw2["treatment_doses"][k:]])
+            kw2["sample_names"] = np.concatenate([kw["sample_names"][take], kw2["sample_names"][k:]])
+        kw2["plate_names"] = np.char.add(kw2["plate_names"].astype(str), "#%d" % (j + 2))  # keeps every plate uniform
+        try:
+            parts.append(Screen(**kw2))
+            parts_kw.append(kw2)
+        except Exception as e:
+            rec.did_not_return("construct-part", e)
+            return
+    how = "combine" if len(parts) == 2 and rng.random() < 0.6 else "concat"
+    try:
+        if how == "combine":
+            d = parts[0].combine(parts[1])
+        else:
+            d = Screen.concat(list(parts))
+    except Exception as e:
+        rec.case(None, nontrivial=False)
+        rec.violation("C01/derived/%s-raises" % how, "Screen.%s of screens with one control name raised %r" % (how, e), witness(kw))
+        return
+    kwd = dict(
+        treatment_names=np.concatenate([k_["treatment_names"] for k_ in parts_kw]),
+        treatment_doses=np.concatenate([k_["treatment_doses"] for k_ in parts_kw]),
+        sample_names=np.concatenate([k_["sample_names"] for k_ in parts_kw]),
+        plate_names=np.concatenate([k_["plate_names"] for k_ in parts_kw]),
+        control_treatment_name=kw["control_treatment_name"],
+    )
+    rec.case(abstract(kwd, d) + (how,), nontrivial=nontrivial(kwd))
+    rec.count("derived_screens_checked")
+    rec.check(str(d.control_treatment_name) == str(kw["control_treatment_name"]), "C01/derived/control-name-lost", lambda: "Screen.%s of screens with control name %r has control name %r" % (how, kw["control_treatment_name"], d.control_treatment_name), witness(kwd))
+    oracle(rec, d, kwd)
 
 
 def _pair_used(tm, r, kw):
